@@ -194,12 +194,19 @@ def c17(ctx):
                 held = False
                 for e in seq:
                     if e['k'] == 'lock':
+                        # a real (non-recursive) mutex: taking it again blocks the only thread that could release it,
+                        # and with it every producer - no trigger is delivered any more
+                        ctx.check('no-self-deadlock', not held, ctx.site(e['fn'], e.get('line')), '%s takes the lock while holding it' % f)
                         held = bool(e['ok'])
                     elif e['k'] == 'unlock':
                         held = False
                     elif e['k'] in ('ld', 'st', 'call_opaque', 'cb', 'io_read', 'io_write'):
                         if e['k'] == 'ld' and e['loc'] in INIT_ONLY:
                             continue
+                        if e['k'] == 'call_opaque' and held:
+                            reach = idx.reachable(e['name']) | {e['name']}
+                            ctx.check('no-self-deadlock', not (reach & (direct | set(bracket))), ctx.site(e['fn'], e.get('line')),
+                                      '%s calls %s with the lock held, which takes the lock again: with a real mutex the service thread blocks itself and every producer' % (f, e['name']))
                         n_acc += 1
                         ctx.check('lockset', held, ctx.site(e['fn'], e.get('line')),
                                   '%s: %s without holding the lock' % (f, _descr(e)))
